@@ -119,8 +119,15 @@ def score_one(I, case):
         imp.randomstate = rec
     LOG.append("%s/%s/%s%s%s n=%d m=%d" % (case["method"], case.get("utility", "accuracy"), case["model"], "/joint" if case.get("joint") else "",
                                          "/shared-utility" if case.get("share_key") is not None else "", len(y), len(yv)))
+    fit_kw = {}
+    if case.get("pandas_keys") is not None:
+        # labels as a Series and training metadata as a DataFrame, both indexed by STRING row keys (hash-randomised per process): rows are looked up by key
+        import pandas as pd
+        keys_ = list(case["pandas_keys"])
+        y = pd.Series(y, index=keys_)
+        fit_kw["metadata"] = pd.DataFrame({"source": list(range(len(keys_)))}, index=keys_)
     g0 = global_state()
-    imp.fit(X, y, provenance=prov)
+    imp.fit(X, y, provenance=prov, **fit_kw)
     g1 = global_state()
     try:
         s = np.asarray(imp.score(Xv, yv, **score_kw), dtype=float)
